@@ -124,13 +124,25 @@ func (s Scope) MatchedUpdate(t Scope) (Scope, error) {
 	for e := s.Enumerator(); e.MoveNext(); {
 		name, v := e.Current()
 		if expr, exists := t.Get(name); exists {
-			if expr.String() != v.String() {
+			if !sameBinding(expr, v) {
 				return Scope{}, fmt.Errorf("the value of %s is different in both scopes", name)
 			}
 		}
 	}
 
 	return s.Update(t), nil
+}
+
+// sameBinding reports whether two bindings of one name agree. Values are
+// compared by equality (1 and "1" print alike but differ); other expressions
+// can only be compared by their text.
+func sameBinding(a, b Expr) bool {
+	if av, is := a.(Value); is {
+		if bv, is := b.(Value); is {
+			return av.Equal(bv)
+		}
+	}
+	return a.String() == b.String()
 }
 
 // Project returns a new scope with just names from the input scope.
